@@ -371,11 +371,11 @@ func runOp(r *lib.Run, op string) {
 			r.Count("oracle-agree")
 		} else {
 			class := "unexplained"
-			switch {
-			case eqs(got, sp):
-				class = "blacklist-string-prefix"
+			switch { // an output both deviations explain alone is attributed to the sibling cut
 			case eqs(got, ct):
 				class = "nondir-skipdir-cuts-siblings"
+			case eqs(got, sp):
+				class = "blacklist-string-prefix"
 			case eqs(got, both):
 				class = "blacklist-string-prefix+nondir-skipdir-cuts-siblings"
 			}
